@@ -31,6 +31,10 @@ def run(ctx):
     ctx.rule('C09.NONE', lambda: rule_none(ctx), 5)
     ctx.rule('C09.COLLISION', lambda: c01.rule_collision(ctx, 'C09.COLLISION'), 2)
     ctx.rule('C09.PAIRS', lambda: c08.rule_add(ctx) + c08.rule_remove(ctx), 8)
+    ctx.rule('C09.LOOPONLY', lambda: rule_looponly(ctx), 2)
+    ctx.rule('C09.ITER', lambda: rule_iter(ctx), 3)
+    # "reaches the exact view of C08": the clauses of the view that do not depend on the refresh being quiet
+    ctx.rule('C09.VIEW', lambda: c08.rule_liveflag(ctx) + c08.rule_sign(ctx) + c08.rule_fee(ctx), 4)
 
 
 def rule_atomic(ctx):
@@ -93,6 +97,104 @@ def rule_atomic(ctx):
     ctx.check(not acc.is_async, 'C09.ATOMIC', ctx.key(acc, None, 'synchronous'), 'transactions are accepted in a synchronous function',
               '_accept_transactions became a coroutine: its paired updates can be interleaved', loc=ctx.loc(acc, acc.node))
     return n + 1
+
+
+SHARED = ('self.txs', 'self.hashXs')
+_MUT_METHODS = ('pop', 'remove', 'add', 'discard', 'clear', 'update', 'popitem', 'setdefault', 'difference_update', 'intersection_update')
+
+
+def mutates_shared(ctx, f):
+    '''Statements of f that change the transaction map, the index, or one of the index's sets.'''
+    out = []
+    for s in f.own_nodes():
+        if isinstance(s, (ast.Assign, ast.AugAssign, ast.Delete)):
+            tg = s.targets if isinstance(s, (ast.Assign, ast.Delete)) else [s.target]
+            for t in tg:
+                b = t
+                while isinstance(b, ast.Subscript):
+                    b = b.value
+                    if ctx.res.canon(b, f) in SHARED:
+                        out.append(s)
+                        break
+        if isinstance(s, ast.Call) and isinstance(s.func, ast.Attribute) and s.func.attr in _MUT_METHODS:
+            b = s.func.value
+            while isinstance(b, ast.Subscript):
+                b = b.value
+            if ctx.res.canon(b, f) in SHARED:
+                out.append(q.stmt(s))
+    return out
+
+
+def rule_looponly(ctx):
+    '''Everything that changes txs / hashXs runs on the event loop, inside the refresh task: a worker thread (or a second
+    task) interleaves with sessions between the paired updates no matter where the awaits are.'''
+    rel = ctx.repo.path('mp')
+    n = 0
+    for f in ctx.repo.funcs.values():
+        if f.unit.relpath != rel or f.cls != 'MemPool' or f.name == '__init__':
+            continue
+        if not mutates_shared(ctx, f):
+            continue
+        n += 1
+        off = [(c, k, nd) for (c, _callee, k, nd) in ctx.cg.callers(f) if k in ('THREAD', 'TASK', 'REF')]
+        ctx.check(not off, 'C09.LOOPONLY', ctx.key(f, None, 'runs on the event loop only'),
+                  f'{f.qual} changes txs/hashXs and is only ever called directly on the event loop',
+                  f'{f.qual} changes txs/hashXs but is handed to ' + ', '.join(f'{k} at {ctx.loc(c, nd)} ({c.qual})' for c, k, nd in off[:3]) +
+                  ': sessions run between its paired updates and see an index that is not the inverse of the transaction set',
+                  loc=ctx.loc(f, f.node))
+    return n
+
+
+def rule_iter(ctx):
+    '''No coroutine suspends while it is iterating over txs / hashXs (or a live view of them): the refresh task changes
+    their size, and the iteration then raises RuntimeError.'''
+    sus = Suspension(ctx)
+    rel = ctx.repo.path('mp')
+    n = 0
+
+    def live_view(e, f):
+        x = e
+        # enumerate(...)/zip(...)/reversed(...) keep the underlying iterator live
+        while isinstance(x, ast.Call) and isinstance(x.func, ast.Name) and x.func.id in ('enumerate', 'zip', 'reversed', 'iter') and x.args:
+            x = x.args[0]
+        if isinstance(x, ast.Call) and isinstance(x.func, ast.Attribute) and x.func.attr in ('values', 'items', 'keys') and not x.args:
+            x = x.func.value
+        if isinstance(x, ast.Subscript):
+            x = x.value
+        return ctx.res.canon(x, f) in SHARED
+    for f in ctx.repo.funcs.values():
+        if f.unit.relpath != rel or f.cls != 'MemPool':
+            continue
+        for lp in f.own_nodes():
+            if not isinstance(lp, (ast.For, ast.AsyncFor)) or not live_view(lp.iter, f):
+                continue
+            n += 1
+            bad = []
+            for st in walk_own(lp):
+                if isinstance(st, ast.stmt) and st is not lp:
+                    r = sus.stmt_suspends(st, f) if f.is_async else None
+                    if r:
+                        bad.append(f'{ctx.loc(f, st)} `{norm(st)[:50]}`: {r}')
+            if isinstance(lp, ast.AsyncFor):
+                bad.append('async for')
+            ctx.check(not bad, 'C09.ITER', ctx.key(f, lp),
+                      'the loop over the live container does not suspend',
+                      f'the loop iterates a live view of the shared mempool container and suspends inside ({"; ".join(bad[:2])}): a refresh '
+                      'that adds or removes a transaction meanwhile makes the iteration raise RuntimeError', loc=ctx.loc(f, lp))
+    # positive floor: comprehensions/loops over the containers that exist today are counted too
+    for f in ctx.repo.funcs.values():
+        if f.unit.relpath != rel or f.cls != 'MemPool':
+            continue
+        for c in f.own_nodes():
+            if isinstance(c, (ast.GeneratorExp, ast.ListComp, ast.SetComp, ast.DictComp)):
+                for g in c.generators:
+                    if live_view(g.iter, f):
+                        n += 1
+                        aw = [x for x in ast.walk(c) if isinstance(x, ast.Await)] or g.is_async
+                        ctx.check(not aw, 'C09.ITER', ctx.key(f, q.stmt(c), norm(c)[:40]),
+                                  'the comprehension over the live container does not suspend',
+                                  'the comprehension over the live container awaits', loc=ctx.loc(f, c))
+    return n
 
 
 def rule_syncheight(ctx):
